@@ -21,11 +21,12 @@ Definition as_slice (p : prefix) : list N := if p_is4 p then bytes_be 4 (p_addr 
 (* for j := 7; j >= 0; j-- { (ip[i]>>j)&1 == 1 } *)
 Definition byte_bits (b : N) : list bool :=
   map (fun j => N.land (N.shiftr b j) 1 =? 1) [7; 6; 5; 4; 3; 2; 1; 0].
-(* the two nested loops with the labelled break: write the bit, n--, leave when n == 0 *)
+(* the two nested loops with the labelled break: leave when n == 0, else write the bit and n--
+   (since commit 1e92e18; before it the test came after the write, so n = 0 ran through all 128 bits) *)
 Fixpoint p2b_loop (bs : list bool) (n : Z) : list bool :=
   match bs with
   | [] => []
-  | b :: rest => b :: (if (n - 1 =? 0)%Z then [] else p2b_loop rest (n - 1))
+  | b :: rest => if (n =? 0)%Z then [] else b :: p2b_loop rest (n - 1)
   end.
 Definition prefix2bin128 (p : prefix) : list bool :=
   let n := (Z.of_N (p_bits p) + (if p_is4 p then 96 else 0))%Z in
@@ -266,21 +267,7 @@ Definition resp_spec_rules (rs : list resp_rule) : list (bool * list prefix) :=
   map (fun r => (rr_not r, rr_values r)) rs.
 
 (* ---------- vocabulary of the theorems' hypotheses ---------- *)
-(* the prefix the loop really denotes: an IPv6 /0 is read as the full 128-bit address *)
-Definition effective (p : prefix) : prefix :=
-  if len128 p =? 0 then {| p_is4 := false; p_addr := addr128 p; p_bits := 128 |} else p.
-
-Definition no_v6_len0 (ps : list prefix) : bool := forallb (fun p => negb (len128 p =? 0)) ps.
-
-Definition op_all (P : prefix -> bool) (o : op) : bool :=
-  match o with
-  | OpIp _ _ vs => forallb P vs
-  | OpMac _ ms => forallb (fun m => P (mac_prefix m)) ms && P (mac_prefix 0)
-  end.
 Definition wf_op (o : op) : bool :=
   match o with OpIp _ _ vs => forallb wf_prefix vs | OpMac _ ms => forallb wf_mac ms end.
 Definition wf_packet (k : packet) : bool := wf_addr (k_dst k) && wf_addr (k_src k) && wf_addr (k_mac k).
-Definition op_no_v6_len0 (o : op) : bool :=
-  match o with OpIp _ _ vs => no_v6_len0 vs | OpMac _ _ => true end.
 Definition wf_resp_rule (r : resp_rule) : bool := forallb wf_prefix (rr_values r).
-Definition resp_no_v6_len0 (r : resp_rule) : bool := no_v6_len0 (rr_values r).
